@@ -68,6 +68,11 @@ def replay_components(ck, binary, name, scenarios):
         raise vf.ToolError("harness roundtrip produced no complete summary")
     ck.traces += summary["scenarios"]
     ck.evaluations += summary["scenarios"] * 5
+    # values whose real encoding differs from the specification's byte image: reported, not gated (a
+    # consistent wire-format change keeps the round-trip property)
+    ck.part("wire_format", format_divergence=summary.get("format_divergence", 0))
+    if summary.get("format_divergence", 0):
+        vf.log("[c07] NOTE: %d values are encoded differently from the specification's byte image (not gated)" % summary["format_divergence"])
     return bad
 
 
